@@ -63,6 +63,7 @@ theorem failed_mutation_noop (cfg : Cfg) (s : St) (op : Op)
   | get u => rfl
   | getAll l o => simp only [step]; split <;> rfl
   | retrieveAll b => simp only [step]; split <;> rfl
+  | fault => rfl
 
 /-- reads never change the store -/
 theorem reads_pure (cfg : Cfg) (s : St) (u : Uid) (l o b : Int) :
@@ -92,6 +93,7 @@ theorem distinct_preserved (cfg : Cfg) (s : St) (op : Op) (hd : Distinct s) : Di
   | get u => exact hd
   | getAll l o => simp only [step]; split <;> exact hd
   | retrieveAll b => simp only [step]; split <;> exact hd
+  | fault => exact hd
 
 /-- `get` is map lookup -/
 theorem get_is_lookup (cfg : Cfg) (s : St) (u : Uid) : (step cfg s (.get u)).2 = .pol (lookup u s) := rfl
